@@ -187,6 +187,14 @@ def run_case(case):
     raw = copy.deepcopy(raw_given)  # the oracle works from the numbers as configured, whatever the run does to its own objects
     try:
         cfg = parse_config_dict(raw_given)
+        cfg_parsed = copy.deepcopy(cfg)
+        moved = None
+        if rng.random() < 0.12:
+            # the tower's local coordinates set by the user after the configuration was built (a mast that was moved, a position known in
+            # metres only): the run takes the measurement point from the tower's x, y as they are
+            t_ = cfg.towers[int(rng.integers(len(cfg.towers)))]
+            t_.x, t_.y = float(rng.uniform(0.1, 0.9) * cfg.domain.xmax), float(rng.uniform(0.1, 0.9) * cfg.domain.ymax)
+            moved = t_.name
         cfg_before = copy.deepcopy(cfg)
     except Exception as e:  # noqa
         return {"harness_error": f"generated configuration rejected: {e!r} {raw}"}
@@ -197,7 +205,7 @@ def run_case(case):
     cfg_y = load_config(p)
     os.unlink(p)
     counters["yaml_roundtrips"] += 1
-    if cfg_y != cfg:
+    if cfg_y != cfg_parsed:
         viol.append({"what": "yaml_and_dict_parse_differently", "config": raw})
 
     # recording spies on the callables the interface module references
@@ -218,6 +226,9 @@ def run_case(case):
         user_flux = None
         if rng.random() < 0.35:
             user_flux = rng.normal(size=(cfg.domain.ny, cfg.domain.nx))
+            if "modes" not in raw["domain"] and rng.random() < 0.4:
+                # a flux map finer than the configured nx, ny (the grid is the map's own)
+                user_flux = rng.normal(size=(2 * cfg.domain.ny, 2 * cfg.domain.nx))
         nsteps = cfg.met.n_timesteps
         for tw in cfg.towers:
             for i in range(nsteps):
@@ -256,7 +267,7 @@ def run_case(case):
                 x_own = 6_371_000.0 * math.radians(rt["lon"] - rlon) * math.cos(math.radians(rlat))
                 y_own = 6_371_000.0 * math.radians(rt["lat"] - rlat)
                 counters["tower_xy_checked"] = counters.get("tower_xy_checked", 0) + 1
-                if not (abs(tw.x - x_own) <= 1e-6 and abs(tw.y - y_own) <= 1e-6):
+                if tw.name != moved and not (abs(tw.x - x_own) <= 1e-6 and abs(tw.y - y_own) <= 1e-6):
                     viol.append(dict(what="tower_local_coordinates", got=(tw.x, tw.y), expected=(x_own, y_own), reference=(rlat, rlon), **ctx))
                 names = [t[0] for t in trace]
                 if names.count("steady_state_transport_solver") != 1 or "vertical_profiles" not in names or "compute_wind_fields" not in names:
